@@ -12,9 +12,9 @@ import (
 )
 
 func init() {
-	register("C02", propC02)
-	register("C03", propC03)
-	register("C04", propC04)
+	register("C02", withShared(propC02, true))
+	register("C03", withShared(propC03, true))
+	register("C04", withShared(propC04, false))
 	register("C05", propC05)
 }
 
@@ -1032,4 +1032,27 @@ func propC05(w *World, r *Report, tier string) {
 		}
 	}
 	r.Expect("dispatch.arms", 88)
+}
+
+
+// dispatchRules: the message-level rules of C05 that every codec property depends on - a message is
+// encoded and decoded through PlainNasEncode/Decode and the family functions, so the discriminator
+// and message-type routing, the header read, "exactly one body, freshly allocated on every decode
+// (nothing of an earlier decode into the same Message survives)" and the symmetric encode dispatch
+// are necessary conditions of the round trip (C02), of re-encoding stability (C03) and of the wire
+// format (C04), and are reported under each.
+var dispatchRules = []string{"dispatch.epd", "dispatch.caseset", "dispatch.header-read", "dispatch.header-view", "dispatch.one-body", "dispatch.encode", "dispatch.default-error", "dispatch.unclassified"}
+
+// withShared wraps a codec property: its own rules first, then the shared ones.  ownMemory adds
+// C10's alias.none ("the decoded message shares no memory with the input"): a message that aliases
+// the caller's receive buffer equals the original only until that buffer is reused, so the equalities
+// C02 and C03 state do not survive the next received frame.
+func withShared(f PropFunc, ownMemory bool) PropFunc {
+	return func(w *World, r *Report, tier string) {
+		f(w, r, tier)
+		importRules(w, r, "C05", tier, dispatchRules, "message-level dispatch and fresh bodies are necessary for every codec property")
+		if ownMemory {
+			importRules(w, r, "C10", tier, []string{"alias.none"}, "a decoded message that aliases the input stays equal to the original only until the input buffer is reused")
+		}
+	}
 }
